@@ -752,3 +752,26 @@ Section Acct.
     - eapply perm_trans; [apply RL_perm; apply Permutation_sym; apply Permutation_rev | exact P2].
   Qed.
 End Acct.
+
+(* ---- finding F3: the refutation witness of the unguarded statement ---- *)
+Definition f3a_leaf (o : N) (v : pyval) : node := NLeaf (mkinfo o None false None) v.
+Definition f3a_L : node := NMap (mkinfo 0 None true None) [(f3a_leaf 1 (PStr "a"), f3a_leaf 2 PNone)].
+Definition f3a_R : node :=
+  NMap (mkinfo 3 None true None)
+       [(f3a_leaf 1 (PStr "a"), NMap (mkinfo 4 None true None) [(f3a_leaf 5 (PStr "b"), f3a_leaf 6 (PInt 1))])].
+Definition f3a_cfg : dcfg := mkdcfg false [] [] None None None None.
+
+Lemma accounting_refuted_witness :
+  exists L R es, wf_doc L = true /\ wf_doc R = true /\
+    compare_to path_eq_real f3a_cfg L R = Ok es /\ ~ Permutation (left_leaves es) (leaves L).
+Proof.
+  exists f3a_L, f3a_R. eexists. split; [reflexivity|]. split; [reflexivity|]. split; [vm_compute; reflexivity|].
+  vm_compute. intros P. apply Permutation_nil in P. discriminate P.
+Qed.
+
+Lemma accounting_all_modes :
+  forall path_eq cfg L R es,
+    wf_doc L = true -> wf_doc R = true -> null_guard L R = true -> null_guard R L = true ->
+    compare_to path_eq cfg L R = Ok es ->
+    Permutation (left_leaves es) (leaves L) /\ Permutation (right_leaves es) (leaves R).
+Proof. intros. eapply compare_to_accounting; eauto. Qed.
